@@ -72,21 +72,18 @@ def _chain_kind(e, g):
 
 
 def _norm_gen_finalisers(o):
-    """observation with every run of consecutive ('gf', id, GeneratorExit) log entries sorted"""
+    """observation in which the log entries written by the finally block of an *abandoned* nested generator
+    (('gf', id, GeneratorExit): it runs when the generator object is finalised) are taken out of the sequence and kept as
+    a sorted list: when a dropped generator gets finalised relative to other code (CPython: when the frame releases its
+    value stack; compiled code: when the iterator temp is released, e.g. at a 'return' inside the loop) and in which
+    order several of them are finalised is reference-count timing, not exception semantics"""
     o = json.loads(json.dumps(o))
     for x in o[2:]:
         if isinstance(x, list) and x and x[0] == 'log':
             items = x[1]
-            i = 0
-            while i < len(items):
-                if _entry(items[i])[0] == 'gf':
-                    j = i
-                    while j < len(items) and _entry(items[j])[0] == 'gf':
-                        j += 1
-                    items[i:j] = sorted(items[i:j], key=json.dumps)
-                    i = j
-                else:
-                    i += 1
+            fin = [it for it in items if _entry(it)[0] == 'gf' and 'GeneratorExit' in json.dumps(it)]
+            rest = [it for it in items if not (_entry(it)[0] == 'gf' and 'GeneratorExit' in json.dumps(it))]
+            x[1] = rest + [['finalised-generators', sorted(fin, key=json.dumps)]]
     return o
 
 
@@ -97,6 +94,9 @@ def crash_key(f):
     import re
     if 'except-star' in feats and ('with' in feats or 'with-suppress' in feats):
         return 'crash-with-statement-sees-null-traceback-of-except-star-group'
+    if any(x in feats for x in ('break-in-finally', 'continue-in-finally')) and any(x.startswith('return-in-') for x in feats) \
+            and ('nested-generator' in feats or 'loop' in feats):
+        return 'crash-return-in-loop-overridden-by-jump-in-finally'
     if re.search(r'^\s*raise$', src, re.M) and any(x.split('-in-')[0] in ('return', 'break', 'continue') for x in feats):
         return 'crash-jump-out-of-except-clause-after-bare-raise'
     return 'crash'
